@@ -24,6 +24,8 @@ class QuaHitList(HitList[QuaHit], QuaNoteList[QuaHit]):
         )
         df.offset = df.offset.fillna(0)
         df.column = df.column.fillna(0)
+        # KeySounds is omitted by the format when there are none
+        df.keysounds = df.keysounds.apply(lambda x: x if isinstance(x, list) else [])
         return QuaHitList(df)
 
     def to_yaml(self):
